@@ -1,0 +1,12 @@
+//go:build !verif
+
+package jsonrpc2
+
+// No-op counterparts of the verification hooks in verif_on.go (build tag `verif`).
+
+type verifSection struct{}
+
+func verifGate(c *Connection)                       {}
+func verifEnter(c *Connection) *verifSection        { return nil }
+func verifUpdated(c *Connection, sec *verifSection) {}
+func verifRetire(ac *AsyncCall, response *Response) {}
